@@ -20,6 +20,23 @@ type c02Case struct {
 	Guest    []Feat `json:"guest"`
 }
 
+// siteCheck, when set by the caller, judges the position of a site-only feature (the edit properties fix where a
+// zero-length site must end up even though their statements are phrased in residues: it may not jump over residues).
+var siteCheck func(what string, got Loc) *Violation
+
+// expectSites builds a siteCheck: the collapsed site list must equal one of the allowed lists.
+func expectSites(allowed ...[]Elem) func(string, Loc) *Violation {
+	return func(what string, got Loc) *Violation {
+		g := collapse(den(got))
+		for _, a := range allowed {
+			if sameElems(collapse(a), g) {
+				return nil
+			}
+		}
+		return viol("site", "%s: site-only feature ends up at %s (location %s), allowed %v", what, elemsString(g), got, allowed)
+	}
+}
+
 // compareFeature checks one result feature against an expected denotation and marker set.
 func compareFeature(what string, got gts.Feature, want Feat, expDen []Elem, expMarkers []Marker, newLen int) *Violation {
 	return compareFeatureCirc(what, got, want, expDen, expMarkers, newLen, false)
@@ -47,6 +64,11 @@ func compareFeatureCirc(what string, got gts.Feature, want Feat, expDen []Elem, 
 		// the statement speaks of residues: a pure between-site feature must stay residue-free
 		if hasResidue(actDen) {
 			return viol("denotation", "%s: site-only feature now denotes residues %s (location %s)", what, elemsString(actDen), ast)
+		}
+		if siteCheck != nil {
+			if v := siteCheck(what, ast); v != nil {
+				return v
+			}
 		}
 		return nil
 	}
@@ -137,7 +159,20 @@ func c02Check(c c02Case) *Violation {
 			exp = embedLocExp(f.Loc, i, n)
 		}
 		expDen, expM := den(exp), markers(exp)
-		if v := compareFeature(fmt.Sprintf("%s i=%d n=%d host %s %s", name, i, n, f.label(), f.Loc), gg[0], f, expDen, expM, newLen); v != nil {
+		siteCheck = nil
+		if !hasResidue(expDen) {
+			// a site exactly at the insertion index may stay in front of the guest or move behind it
+			alt := mapLeaves(f.Loc, func(x Loc) Loc {
+				if x.K == "bt" && x.A >= i {
+					return lbt(x.A + n)
+				}
+				return x
+			})
+			siteCheck = expectSites(expDen, den(alt))
+		}
+		v := compareFeature(fmt.Sprintf("%s i=%d n=%d host %s %s", name, i, n, f.label(), f.Loc), gg[0], f, expDen, expM, newLen)
+		siteCheck = nil
+		if v != nil {
 			return v
 		}
 	}
@@ -146,7 +181,13 @@ func c02Check(c c02Case) *Violation {
 		if len(gg) != 1 {
 			return viol("presence", "%s: guest feature %s present %d times", name, f.label(), len(gg))
 		}
-		if v := compareFeature(fmt.Sprintf("%s i=%d n=%d guest %s %s", name, i, n, f.label(), f.Loc), gg[0], f, den(shiftLoc(f.Loc, i)), markers(shiftLoc(f.Loc, i)), newLen); v != nil {
+		siteCheck = nil
+		if !hasResidue(den(f.Loc)) {
+			siteCheck = expectSites(den(shiftLoc(f.Loc, i)))
+		}
+		v := compareFeature(fmt.Sprintf("%s i=%d n=%d guest %s %s", name, i, n, f.label(), f.Loc), gg[0], f, den(shiftLoc(f.Loc, i)), markers(shiftLoc(f.Loc, i)), newLen)
+		siteCheck = nil
+		if v != nil {
 			return v
 		}
 	}
